@@ -16,7 +16,7 @@ HOSTS = [("lang", "fr-", ".facebook.com"), ("www", "www.", "x.co.uk"), ("amp", "
 
 def urls(st, skel, n, flag):
     name, pre, post = SKELETONS[skel]
-    u = cat(pre, sym_str(st, "s", n, HEXDOM if name.startswith("path-escape") else None), post)
+    u = cat(pre, sym_str(st, "s", n, HEXDOM if name.startswith(("path-escape", "fragment-escape")) else None), post)
     run_prop(st, "normalized_hostname_of_url", S.normalized_hostname_of_url, u, flag, not flag)
     run_prop(st, "fingerprinted_hostname_of_url", S.fingerprinted_hostname_of_url, u, flag, True)
     run_prop(st, "canonicalized_stems", S.canonicalized_stems, u, flag)
